@@ -183,7 +183,8 @@ def run_case(ck, desc):
             gas = np.abs(rng.normal(100, 20, n))
             idx = rng.choice(np.arange(1, n), desc["n_zero"], replace=False) if desc["n_zero"] else np.array([], dtype=int)
             gas[idx] = 0.0
-            prod = pd.DataFrame({"Days": np.arange(n, dtype=float), "Gas": gas, "Pressure": pf})
+            day0 = float(int(desc["seed"]) % 3) * 45.0  # production records often start at a non-zero day
+            prod = pd.DataFrame({"Days": day0 + np.arange(n, dtype=float), "Gas": gas, "Pressure": pf})
             P = Parameters()
             P.add("tau", value=desc["tau"])
             P.add("M", value=desc["M"])
@@ -192,7 +193,7 @@ def run_case(ck, desc):
                 warnings.simplefilter("ignore")
                 fig, (ax1, ax2) = plot_production_comparison(prod, pvt, P, filter_window_size=desc["window"], filter_zero_prod_days=desc["filter"])
             keep = gas > 0 if desc["filter"] else np.ones(n, dtype=bool)
-            t = np.arange(int(keep.sum())) if desc["filter"] else np.arange(n, dtype=float)
+            t = np.arange(int(keep.sum())) if desc["filter"] else prod["Days"].to_numpy(dtype=float)
             pfk = pf[keep]
             if desc["window"] is not None:
                 import scipy as sp
